@@ -1,5 +1,6 @@
 (* C06 — flat-integer interface of the model for the correspondence check.
-   input : [ns; NB; P; ns2add; offset; nc_out; nbytes; ncv; rms_offset; time_offset] ++ probes
+   input : [ns; NB; P; ns2add; append (0/1); pre_len; nc_out; nbytes; ncv; rms_offset; time_offset] ++ probes
+           (pre_len: bytes of the file found at output_file before the call)
            (probes: sample indices in [0, ns) at which the saturation bookkeeping is reported)
            (SAMPLES_TAPER is the source's constant 1024)
    output: nbatches :: file_end :: rms_end :: time_end
@@ -33,10 +34,11 @@ Definition enc_probe (c : cfg) (g : Z) : list Z :=
 
 Definition run (inp : list Z) : list Z :=
   match inp with
-  | ns :: NB :: P :: ns2add :: offset :: ncout :: nbytes :: ncv :: roff :: toff :: probes =>
+  | ns :: NB :: P :: ns2add :: app :: pre :: ncout :: nbytes :: ncv :: roff :: toff :: probes =>
+      let '(kept, offset) := start_state (app =? 1) pre in
       let c := mkCfg SAMPLES_TAPER ns NB P ns2add offset ncout nbytes ncv roff toff in
       nbatches c
-      :: (offset + (ns + ns2add) * rowbytes c)
+      :: final_length c kept
       :: (roff + nbatches c * ncv * rms_nbytes)
       :: (toff + nbatches c * rms_nbytes)
       :: enc_list enc_wres (workers c)
